@@ -10,7 +10,7 @@ ID = "C16"
 RULE = ("A program is built from 3..6 units over a small pool of generated inputs/configurations: (A) kalign() call; (F) "
         "kalign_read_input of 1..3 files (any readable format) -> kalign_run -> dump -> kalign_write_msa in 1..3 formats -> "
         "kalign_free_msa (a quarter of these align the object twice - the second result must equal the first - and some try to write before aligning, which must fail cleanly; a fifth call kalign_check_msa / reformat_settings_msa in between; a sixth first make a run that is rejected, a sixth append their last file only after a first alignment - the fresh-process reference of those units is the plain read-all, align-once sequence); (C) two alignments read into two objects -> kalign_msa_compare -> free both; (R) a run that must be "
-        "rejected (type/kind mismatch) -> free. The steps of all units are interleaved by a drawn merge order (several msa "
+        "rejected (type/kind mismatch) -> free; (X) reads that add nothing (directory, missing / empty / blank / binary file) -> free. The steps of all units are interleaved by a drawn merge order (several msa "
         "objects alive at once) with 'scribble' steps (malloc/fill/free of drawn sizes and byte patterns: the application's own "
         "heap traffic) in between; validity by construction. The whole program runs in one ASan+UBSan+LSan probe process. "
         "Oracle: every unit is also executed alone in a fresh process; return codes, dumped names/rows, written files (MSF "
@@ -113,7 +113,7 @@ def inputs(draw):
 
 @st.composite
 def unit(draw, pool):
-    kind = draw(st.sampled_from(["A", "F", "F", "C", "R"]))
+    kind = draw(st.sampled_from(["A", "A", "F", "F", "F", "F", "C", "C", "R", "R", "X"]))
     inp = draw(st.integers(0, len(pool) - 1))
     k = pool[inp]["kind"]
     cfg = {"type": draw(gen.types_for(k)), "threads": draw(st.sampled_from([1, 2, 4, 8]))}
@@ -140,6 +140,10 @@ def unit(draw, pool):
         u["fmt2"] = draw(st.sampled_from(["fasta", "msf", "clu"]))
     elif kind == "R":
         u["cfg"] = dict(cfg, type=3 if k == "dna" else 0)
+    elif kind == "X":
+        # reads that add nothing (a directory, a missing file, an empty file, blank lines, bytes that are no sequence file):
+        # whatever they return, later calls must not notice them
+        u["odd"] = draw(st.lists(st.sampled_from(["dir", "missing", "empty", "blank", "binary"]), min_size=1, max_size=3))
     return u
 
 
@@ -210,6 +214,18 @@ def unit_steps(u, pool, wd, slot0, baseline=False):
             op = wd.path("." + fmt)
             lines.append("write %d %s %s" % (slot0, fmt, op))
             keys.append((len(lines) - 1, "file:%s:%s" % (fmt, op)))
+        lines.append("free %d" % slot0)
+    elif u["kind"] == "X":
+        import os
+        for k, odd in enumerate(u.get("odd") or ["dir"]):
+            if odd == "dir":
+                path = wd.d
+            elif odd == "missing":
+                path = os.path.join(wd.d, "no_such_file_%d.fa" % k)
+            else:
+                path = wd.write({"empty": b"", "blank": b"\n\n\n\n\n\n", "binary": bytes(range(256)) * 3}[odd], ".odd")
+            lines.append("read %d 1 %s" % (slot0, path))
+            keys.append((len(lines) - 1, "rc"))
         lines.append("free %d" % slot0)
     else:  # C
         from props.c17 import random_alignment
